@@ -26,7 +26,7 @@ func (e *Engine) ghostArr(st *State, name string, s Sort) *Term {
 	return e.tb.Const("G0!"+name, s)
 }
 
-var ghostSorts = map[string]Sort{"setbyteslen": SInt, "closed": SArrB, "sends": SArrI, "held": SArrB, "kvput": SArrB, "kvdel": SArrB, "kvapplied": SArrI, "kvbatch": SArrB, "marks": SArrB}
+var ghostSorts = map[string]Sort{"setbyteslen": SInt, "closed": SArrB, "sends": SArrI, "held": SArrB, "kvput": SArrB, "kvdel": SArrB, "kvapplied": SArrI, "kvbatch": SArrB, "marks": SArrB, "ctxdone": SArrB}
 
 func (e *Engine) setGhost(st *State, name string, t *Term) {
 	st.Ghost[name] = t
@@ -287,7 +287,14 @@ func init() {
 	for _, n := range []string{"Err", "Done", "Deadline", "Value"} {
 		n := n
 		libIface["context.Context."+n] = func(e *Engine, st *State, c *ssa.CallCommon, recv Val, args []Val, pos token.Pos, k Kont) {
-			k(st, e.havocResults(st, c.Signature(), "ctx_"+n))
+			res := e.havocResults(st, c.Signature(), "ctx_"+n)
+			if n == "Err" && len(res.T) == 2 {
+				tb := e.tb
+				cd := e.ghostArr(st, "ctxdone", SArrB)
+				key := tb.App("ctxkey", SInt, recv.ifTag(), recv.ifVal())
+				e.assume(st, tb.Implies(tb.Select(cd, key), tb.Neq(res.ifTag(), tb.Int(0))))
+			}
+			k(st, res)
 		}
 	}
 	for _, n := range []string{"(*polycry.pt/poly-go/sync.Closer).IsClosed", "(*polycry.pt/poly-go/sync.Closer).Closed"} {
